@@ -33,6 +33,25 @@ type c10Defect struct {
 	Names string // text the error must mention ("" = any error will do)
 	// how the resolver must not have been invoked: "field:<name>" no call of that field; "arg:<field>:<arg>" no call of field with that arg
 	NoCall string
+	// NoValue: the response must not carry a non-null value under the alias dfx (the selection was not resolved)
+	NoValue bool
+}
+
+// dfxValues collects the non-null values found under the response key dfx.
+func dfxValues(v interface{}, out *[]interface{}) {
+	switch tv := v.(type) {
+	case map[string]interface{}:
+		for k, e := range tv {
+			if k == "dfx" && e != nil {
+				*out = append(*out, e)
+			}
+			dfxValues(e, out)
+		}
+	case []interface{}:
+		for _, e := range tv {
+			dfxValues(e, out)
+		}
+	}
 }
 
 func c10Defects() []c10Defect {
@@ -51,6 +70,10 @@ func c10Defects() []c10Defect {
 		{Name: "omitted-required-arg", Needs: "echo", Make: func(*world.TypeDef) *world.Sel {
 			return echo(world.Arg{Name: "b", Value: true})
 		}, Names: "", NoCall: "field:echo"},
+		{Name: "omitted-required-arg-no-args-at-all", Needs: "echo", Make: func(*world.TypeDef) *world.Sel { return echo() }, Names: "", NoCall: "field:echo"},
+		// a field that the CONCRETE type behind the container defines but the container type itself does not
+		{Name: "field-of-implementation-only", Needs: "interface", Make: func(*world.TypeDef) *world.Sel { return al(world.F("id")) }, Names: "id", NoValue: true},
+		{Name: "field-directly-under-union", Needs: "union", Make: func(*world.TypeDef) *world.Sel { return al(world.F("name")) }, Names: "name", NoValue: true},
 		{Name: "unknown-directive", Needs: "i", Make: func(*world.TypeDef) *world.Sel { return al(world.F("i")).With(world.Dir{Name: "zq7"}) }},
 		{Name: "misplaced-directive", Needs: "i", Make: func(*world.TypeDef) *world.Sel { return al(world.F("i")).With(world.Dir{Name: "deprecated"}) }},
 		{Name: "undefined-type-condition-inline", Make: func(td *world.TypeDef) *world.Sel { return world.In("Zq7", world.F("__typename")) }},
@@ -124,10 +147,18 @@ func runC10(c *core.Ctx) {
 		})
 		for _, st := range sites {
 			td := s.Type(st.container)
-			if td == nil || td.Kind == world.KUnion {
-				continue // a union container only holds fragments; its member fragments are visited as object sites
+			if td == nil {
+				continue
 			}
 			for _, df := range defects {
+				// a union container only holds fragments (its member fragments are visited as object sites): only the
+				// defect made for it applies
+				if (td.Kind == world.KUnion) != (df.Needs == "union") {
+					continue
+				}
+				if df.Needs == "interface" && td.Kind != world.KInterface {
+					continue
+				}
 				if df.Needs == "echo" && td.Field("echo") == nil {
 					continue
 				}
@@ -218,13 +249,13 @@ func runC10(c *core.Ctx) {
 								if ar.Key.Field != parts[1] {
 									continue
 								}
-								if parts[0] == "field" && df.Name != "omitted-required-arg" {
+								if parts[0] == "field" && !strings.HasPrefix(df.Name, "omitted-required-arg") {
 									c.Outcome("resolver-invoked")
 									c.Violation("resolver-invoked", attrs, mk("resolver invoked for undefined field "+parts[1]))
 									bad = true
 									break
 								}
-								if parts[0] == "field" && df.Name == "omitted-required-arg" {
+								if parts[0] == "field" && strings.HasPrefix(df.Name, "omitted-required-arg") {
 									if _, has := ar.Args["s"]; !has {
 										c.Outcome("resolver-invoked")
 										c.Violation("resolver-invoked", attrs, mk("resolver invoked without the required argument s"))
@@ -240,6 +271,15 @@ func runC10(c *core.Ctx) {
 										break
 									}
 								}
+							}
+						}
+						if df.NoValue && o.HasData {
+							var vals []interface{}
+							dfxValues(o.Data, &vals)
+							if len(vals) > 0 {
+								c.Outcome("defect-resolved")
+								c.Violation("defect-resolved", attrs, mk(fmt.Sprintf("the defective selection was resolved to %v", vals[0])))
+								bad = true
 							}
 						}
 						// siblings intact unless the whole document was rejected
